@@ -196,6 +196,37 @@ let subst_line (line : string) : unit =
     print_endline (join " " (List.map (fun q -> show (subst_gen bs (nat_of_int q))) (qs rest)))
   | _ -> ()
 
+(* ---- region mode (C12) ---- *)
+let region_line (line : string) : unit =
+  let items = List.filter (fun x -> x <> "") (List.map String.trim (split_on ';' line)) in
+  let noop = OSub (nat_of_int 1000000) in
+  let parse item =
+    match words item with
+    | ["unit"] | ["module"] -> OUnit
+    | ["munit"; _] -> OUnit
+    | [k; a] ->
+      let n = nat_of_int (int_of_string a) in
+      (match k with
+       | "sub" -> OSub n | "class" -> OClass n | "union" -> OUnion n | "namespace" -> ONamespace n
+       | "closure" -> OClosure n | "enum" -> OEnum n | "block" -> OBlock n | "handler" -> OHandler n
+       | "mapping" -> OMapping n | "lambda" -> OLambda n | "requires" -> ORequires n | "morphism" -> OMorphism n
+       | "where" -> OWhere n | _ -> noop)
+    | _ -> noop in
+  let s = region_run (List.map parse items) in
+  let regs = s.regions in
+  let n = List.length regs in
+  let b = Buffer.create 256 in
+  List.iteri (fun i r ->
+    let parent = match r.r_parent with Some p -> string_of_int (int_of_nat p) | None -> "-" in
+    let pr = function Some (o, role) -> Printf.sprintf "%d.%d" (int_of_nat o) (int_of_nat role) | None -> "-" in
+    let glob = if region_is_global s (nat_of_int i) then 1 else 0 in
+    (* depth = number of outward steps to the root *)
+    let rec depth k cur = match (List.nth regs cur).r_parent with None -> (k, cur) | Some p -> depth (k + 1) (int_of_nat p) in
+    let (d, root) = depth 0 i in
+    ignore n;
+    Buffer.add_string b (Printf.sprintf "r%d:%s:%s:%d:%d:%d:%s " i parent (pr r.r_owner) glob d root (pr r.r_bind))) regs;
+  print_endline (if Buffer.length b = 0 then "-" else Buffer.contents b)
+
 let iter_lines f =
   try while true do
     let l = input_line stdin in
@@ -207,4 +238,5 @@ let () =
   | [| _; "rb" |] -> iter_lines rb_line
   | [| _; "scope" |] -> iter_lines scope_line
   | [| _; "subst" |] -> iter_lines subst_line
+  | [| _; "region" |] -> iter_lines region_line
   | _ -> prerr_endline "usage: model_driver <mode>"; exit 2
